@@ -199,7 +199,7 @@ def check(res, tier, replay=None):
                        "non-trivial = at least one event on disk; distinct by script text")
     res.assumptions = ["clock_gettime is replaced by a deterministic non-decreasing counter",
                        "write() completes (faults are C10's subject)"]
-    prep = engine.prepare(res, drivers=("drv_rt",))
+    prep = engine.prepare(res, drivers=("drv_rt", "drv_emu"))
     proved = vcommon.prove(res, ["C02", "C02Emu"])
     found = False
     if prep.bdir and prep.driver_ok:
@@ -235,9 +235,21 @@ def check(res, tier, replay=None):
             res.dist("pass:tmpdir", len(sub))
             found = c01.run_engine(res, prep, sub, oracle_c02, "c02-tmpdir", env_extra={"RT_TMPDIR": "1"},
                                    extra=make_extra(prep.bdir, res)) or found
+        if not replay:
+            # conformant programs with SEVERAL threads: legal histories of the documented thread automaton over shared
+            # CPUs (a cooling / warming / paused thread next to a running one, remote affinity, several processes and
+            # looms), written event for event as libovni writes them (C01), must be accepted by ovniemu -l with the
+            # documented timelines (the engine of C04/C05; seeded C02-7 refused a cooling thread next to a running one)
+            import c04
+            import c05
+            r3 = vcommon.rng("c02-mt")
+            mt = [c05.gen_history(r3, res, p_illegal=0.0) for _ in range(250 if tier == "quick" else 4000)]
+            mt = [c for c in mt if c[2] in (None, "ok")]
+            res.dist("pass:multi-thread-legal", len(mt))
+            found = c04.run_cases(res, prep, mt, "c02-mt", c05.TYPES) or found
         for b in res.cov.get("correspondence_breaks", [])[:3]:
             proved = False
-            res.failed_obligations = getattr(res, "failed_obligations", []) + ["correspondence rt: " + b["what"] + " on: " + b["script"]]
+            res.failed_obligations = getattr(res, "failed_obligations", []) + ["correspondence rt: " + b["what"] + " on: " + b.get("script", "")]
     for pr in prep.problems:
         res.failed_obligations = getattr(res, "failed_obligations", []) + [pr]
         proved = False
